@@ -54,23 +54,25 @@ def miri_exec(run, script_lines, tag, timeout=3000, flags=''):
 
 def miri_race(run, plan, seeds='0..8', timeout=3000):
     pp = os.path.join(run.workdir, 'miri-race-plan.json')
+    od = os.path.join(run.workdir, 'out')
+    os.makedirs(od, exist_ok=True)
     with open(pp, 'w') as f:
         json.dump(plan, f)
-    cmd = ['cargo', '+nightly', 'miri', 'run', '--offline', '-q', '-p', 'avmon-exec', '--no-default-features', '--features', 'hooks', '--', 'race', pp]
+    cmd = ['cargo', '+nightly', 'miri', 'run', '--offline', '-q', '-p', 'avmon-exec', '--no-default-features', '--features', 'hooks', '--', 'race', pp, od]
     env = _env({'MIRIFLAGS': '-Zmiri-disable-isolation -Zmiri-many-seeds=%s' % seeds, 'CARGO_TARGET_DIR': MIRI_TARGET})
     try:
         p = subprocess.run(cmd, cwd=driver.HARNESS, env=env, stdout=subprocess.PIPE, stderr=subprocess.PIPE, timeout=timeout)
     except subprocess.TimeoutExpired:
         return [], 'timeout'
     outs = []
-    for line in p.stdout.decode('utf-8', 'replace').splitlines():
+    for fn in sorted(os.listdir(od)):
         try:
-            outs.append(json.loads(line))
+            outs.append(json.load(open(os.path.join(od, fn))))
         except ValueError:
             pass
     err = p.stderr.decode('utf-8', 'replace')
     report = None
-    m = re.search(r'(error: Undefined Behavior.*?|error: .*?[Dd]ata race.*?)(?:\n\n|\Z)', err, re.S)
+    m = re.search(r'(error: Undefined Behavior.*?|error: .*?[Dd]ata race.*?|error: memory leaked.*?)(?:\n\n|\Z)', err, re.S)
     if m:
         report = m.group(1)[:1500]
     elif p.returncode != 0 and not outs:
@@ -91,10 +93,16 @@ def tsan_race(run, binary, plan, idx):
     pp = os.path.join(run.workdir, 'tsan-plan-%d.json' % idx)
     with open(pp, 'w') as f:
         json.dump(plan, f)
-    p = subprocess.run([binary, 'race', pp], stdout=subprocess.PIPE, stderr=subprocess.PIPE, env=dict(os.environ, TSAN_OPTIONS='halt_on_error=0 exitcode=66'), timeout=600)
+    p = subprocess.run([binary, 'race', pp], stdout=subprocess.PIPE, stderr=subprocess.PIPE, env=dict(os.environ, TSAN_OPTIONS='halt_on_error=0 exitcode=66'), timeout=900)
+    os.unlink(pp)
     err = p.stderr.decode('utf-8', 'replace')
     reports = re.findall(r'WARNING: ThreadSanitizer: (.*?)\n(.*?)(?:={10,}|\Z)', err, re.S)
-    return p.returncode, [(k, body[:1200]) for k, body in reports]
+    out = None
+    try:
+        out = json.loads(p.stdout)
+    except ValueError:
+        pass
+    return p.returncode, [(k, body[:1500]) for k, body in reports], out
 
 
 def memcheck(run, script_lines, tag, timeout=3000):
